@@ -433,15 +433,7 @@ impl Session {
         match runtime {
             Runtime::Sync => {
                 let provider = TableProvider::new(u.clone());
-                // a quarter of the universes: filter_candidates answers in reverse listing order
-                // (the trait promises no order; nothing the solver computes may depend on it)
-                provider.filter_reversed.set(crate::runner::hash_of(&*u) % 4 == 0);
-                // the size hint of the union iterator: exact, none at all, or a lower bound of one
-                match crate::runner::hash_of(&(&*u, 1u8)) % 6 {
-                    0 => provider.union_iter_unbounded.set(true),
-                    1 => provider.union_iter_lower_one.set(true),
-                    _ => {}
-                }
+                provider.vary_answers();
                 let mut s = Solver::new(provider);
                 if let Some((a, d)) = activity {
                     s = s.with_activity_params(a, d);
@@ -455,12 +447,7 @@ impl Session {
             Runtime::Async { policy, immediate } => {
                 let sched = Sched::new(policy.clone(), immediate.clone());
                 let provider = TableProvider::new(u.clone()).with_sched(sched.clone());
-                provider.filter_reversed.set(crate::runner::hash_of(&*u) % 4 == 0);
-                match crate::runner::hash_of(&(&*u, 1u8)) % 6 {
-                    0 => provider.union_iter_unbounded.set(true),
-                    1 => provider.union_iter_lower_one.set(true),
-                    _ => {}
-                }
+                provider.vary_answers();
                 let mut s = Solver::new(provider).with_runtime(SchedRuntime {
                     sched: sched.clone(),
                 });
